@@ -67,11 +67,20 @@ type c11Case struct {
 	// Full: the whole dkg.Run (libp2p on loopback, lock files and keystores on disk) instead of
 	// runFrostParallel over the harness transport; the orders are not controlled then.
 	Full bool `json:"full_dkg,omitempty"`
+	// TP: part two - the production transport (real newFrostP2P, real bcast component, real p2p handlers on an
+	// in-memory host) instead of the harness barrier; see zz_verif_c11tp_test.go. Order1/Order2 are unused then.
+	TP      bool     `json:"production_transport,omitempty"`
+	Base    int      `json:"base_order,omitempty"`       // 0 = casts first, 1 = p2p first
+	Devs    []c11Dev `json:"deviations,omitempty"`       // applied in this order to the recipients' arrival lists
+	Choices []int    `json:"schedule_choices,omitempty"` // "conc" deviation: the interleaving (schedx choice sequence)
 }
 
 func (c c11Case) cfg() string { return fmt.Sprintf("n=%d,t=%d,v=%d", c.N, c.T, c.V) }
 
 func (c c11Case) String() string {
+	if c.TP {
+		return c.tpString()
+	}
 	return fmt.Sprintf("%s order1=%v order2=%v maprot=%d", c.cfg(), c.Order1, c.Order2, c.MapRot)
 }
 
@@ -258,6 +267,10 @@ type c11Outcome struct {
 	shares  [][]share.Share // [node][validator]
 	errs    []error         // per node
 	harness error           // harness-side problem (bad case, watchdog): never a violation
+	// part two only
+	stalled   bool // no node failed, nothing is deliverable any more and some node has not returned
+	delivered int  // handler invocations
+	dupDrops  int  // "Ignoring duplicate" decisions of the real callbacks during this ceremony
 }
 
 // firstErr returns the root cause if there is one (not the "peer failed" echo seen by the other nodes).
@@ -282,6 +295,9 @@ var errC11Watchdog = fmt.Errorf("harness watchdog: ceremony did not finish")
 func c11Ceremony(c c11Case) c11Outcome {
 	if c.Full {
 		return c11FullDKG(c)
+	}
+	if c.TP {
+		return c11TPCeremony(c)
 	}
 	tp, err := c11NewTransport(c)
 	if err != nil {
@@ -519,6 +535,9 @@ func c11Fresh(c c11Case) (viol []c11viol, ok bool, why string) {
 		}
 		if err := out.firstErr(); err != nil {
 			return nil, false, err.Error()
+		}
+		if out.stalled {
+			return nil, false, "ceremony stalled"
 		}
 		viol = append(viol, c11Judge(c, out.shares, cnt)...)
 		viol = append(viol, c11Indep(c, out.shares, seen, cnt)...)
@@ -791,6 +810,12 @@ func (s *c11State) eval(c c11Case, seen map[tbls.PublicKey]string) {
 	r.Eval(c.cfg() + ":" + c.Family)
 	r.Outcome("ceremony-ok")
 	r.Count("ceremonies_ok", 1)
+	s.judge(c, out, seen)
+}
+
+// judge applies the oracle to a successful ceremony and confirms candidates by fresh re-runs of the case.
+func (s *c11State) judge(c c11Case, out c11Outcome, seen map[tbls.PublicKey]string) {
+	r := s.r
 	cnt := map[string]int{}
 	viol := c11Judge(c, out.shares, cnt)
 	viol = append(viol, c11Indep(c, out.shares, seen, cnt)...)
